@@ -303,7 +303,7 @@ fn one_case(_ctx: &Ctx, case: u64, r: &mut Rng, rep: &mut Report, max_packs: usi
 }
 
 pub fn run(ctx: &Ctx) -> (Report, Meta) {
-    let n = ctx.tier.pick(4_000, 300_000);
+    let n = ctx.tier.pick(10_000, 1_500_000);
     let max_packs = ctx.tier.pick(25, 120);
     let rep = run_cases(ctx, n, &|c, i, r, rep| one_case(c, i, r, rep, max_packs));
     let meta = Meta {
